@@ -58,19 +58,31 @@ type ccJob struct {
 
 var gccErrRe = regexp.MustCompile(`(?m)^[^\n]*\berror: ([^\n]*)$`)
 
-// gccKey turns the first gcc error into a stable signature.
+var (
+	gccQuotedRe  = regexp.MustCompile(`'[^']*'|‘[^’]*’`)
+	gccSpecific  = regexp.MustCompile(`\b(wuffs_[A-Za-z0-9_]*|WUFFS_[A-Za-z0-9_]*|(a|v|f|t|i|o|u|p|s|iop|io0|io1|io2)_[A-Za-z0-9_]*)\b`)
+	gccDigitsRe  = regexp.MustCompile(`[0-9]+`)
+	gccNonWordRe = regexp.MustCompile(`[^A-Za-z_N]+`)
+)
+
+// gccKey turns the first gcc error into a stable signature: program-specific
+// identifiers (wuffs_pkg__name, a_arg, v_var, …) are dropped, generic ones
+// ('magic', 'self', 'private_data', types) are kept so that the key names the
+// defect and not merely the message class.
 func gccKey(out string) string {
 	m := gccErrRe.FindStringSubmatch(out)
 	msg := "no-error-line"
 	if m != nil {
 		msg = m[1]
 	}
-	msg = regexp.MustCompile(`'[^']*'|‘[^’]*’`).ReplaceAllString(msg, "_")
-	msg = regexp.MustCompile(`[0-9]+`).ReplaceAllString(msg, "N")
-	msg = regexp.MustCompile(`[^A-Za-z_N]+`).ReplaceAllString(msg, "-")
+	msg = gccQuotedRe.ReplaceAllStringFunc(msg, func(q string) string {
+		return gccSpecific.ReplaceAllString(q, "X")
+	})
+	msg = gccDigitsRe.ReplaceAllString(msg, "N")
+	msg = gccNonWordRe.ReplaceAllString(msg, "-")
 	msg = strings.Trim(msg, "-")
-	if len(msg) > 70 {
-		msg = msg[:70]
+	if len(msg) > 90 {
+		msg = msg[:90]
 	}
 	return "gcc:" + msg
 }
@@ -254,6 +266,9 @@ func (h *harness) runBatch(cases []*Case) {
 			if tieParse && par != "" && par != "notok" {
 				r.Op("parse 1 "+hexsrc, par)
 			}
+			if tieParse && o.res != nil && o.res.ParseLine0 != "" {
+				r.Op("parse 0 "+hexsrc, o.res.ParseLine0)
+			}
 		}
 		if o.res != nil {
 			tot := int64(0)
@@ -319,8 +334,30 @@ func main() {
 
 	std, err := hlib.GenStd(r.Repo)
 	if err != nil {
-		fmt.Fprintln(os.Stderr, "c11: GenStd:", err)
-		os.Exit(2)
+		// `wuffs gen` over the unmodified std/ failed: the toolchain itself
+		// panicked or rejected a valid program (or the tree does not build).
+		msg := err.Error()
+		key := "std-gen:error"
+		if strings.Contains(msg, "panic:") || strings.Contains(msg, "goroutine ") {
+			key = "std-gen:panic"
+			if m := regexp.MustCompile(`github.com/google/wuffs/[a-z/]+\.\(?\*?[A-Za-z]*\)?\.?([A-Za-z0-9_]+)\(`).FindStringSubmatch(msg); m != nil {
+				key += ":" + m[1]
+			}
+		}
+		kept := []string(nil)
+		for _, l := range strings.Split(msg, "\n") {
+			if !strings.HasPrefix(l, "gen wrote:") && !strings.HasPrefix(l, "gen unchanged:") {
+				kept = append(kept, l)
+			}
+		}
+		// keep the head (panic message, first frames) and the tail (the failing command)
+		if len(kept) > 60 {
+			kept = append(append(kept[:40:40], "…"), kept[len(kept)-12:]...)
+		}
+		msg = strings.Join(kept, "\n")
+		r.Fail(key, "running `wuffs gen` (cmd/wuffs + cmd/wuffs-c built from the working tree) over std/ failed", msg)
+		r.Finish("std/ could not be generated; nothing else was run")
+		return
 	}
 	defer std.Cleanup()
 	h := &harness{r: r, std: std, genC: filepath.Join(std.Scratch, "gen", "c"), seenKey: map[string]int{}, cpuByFam: map[string]int64{}, ccSeen: map[[32]byte]bool{}}
@@ -398,7 +435,7 @@ func main() {
 	// 2. random streams.
 	nRandom, nProgram, nCorpus, maxPkg := 1500, 1500, 1200, 200_000
 	if r.Thorough {
-		nRandom, nProgram, nCorpus, maxPkg = 40000, 60000, 40000, 1_000_000
+		nRandom, nProgram, nCorpus, maxPkg = 20000, 24000, 8000, 1_000_000
 	}
 	for done := 0; done < nRandom; done += 500 {
 		batch = batch[:0]
@@ -410,9 +447,6 @@ func main() {
 			}
 		}
 		h.runBatch(batch)
-	}
-	for _, s := range snippetFuncs {
-		_ = s
 	}
 	for done := 0; done < nProgram; done += 500 {
 		batch = batch[:0]
